@@ -869,6 +869,59 @@ theorem backStage_total (t : Table) (pass : Nat) (input : List Nat) (max : Nat) 
   intro h; rw [h] at this; exact this
 
 
+theorem backActLoop_plain (p input : List Nat) (m : Match) (max dsm : Nat) :
+    ∀ (fuel ic : Nat) (a : Acc) (dsr : Nat) (np : Int) (vars : List Nat) (a' : Acc) (np' : Int) (vars' : List Nat),
+      plainAction p fuel ic = true →
+      backActLoop p input m max dsm fuel ic a dsr np vars = .ok a' np' vars' →
+      a'.out = a.out ++ emitted p fuel ic ∧ np' = np := by
+  intro fuel
+  induction fuel with
+  | zero => intro ic a dsr np vars a' np' vars' h; simp [plainAction] at h
+  | succ f ih =>
+    intro ic a dsr np vars a' np' vars' hp h
+    unfold backActLoop at h
+    unfold plainAction at hp
+    unfold emitted
+    by_cases hic : ic ≥ p.length
+    · simp only [hic, if_true] at h ⊢
+      cases h; simp
+    · simp only [hic, if_false] at h hp ⊢
+      by_cases hs : (ins p ic == pass_string || ins p ic == pass_dots) = true
+      · simp only [hs, if_true] at h hp ⊢
+        by_cases hcap : a.out.length + ins p (ic + 1) > max
+        · simp [hcap] at h
+        · simp only [hcap, if_false] at h
+          obtain ⟨h1, h2⟩ := ih _ _ _ _ _ _ _ _ hp h
+          exact ⟨by simp [h1], h2⟩
+      · simp only [hs] at h hp ⊢
+        by_cases ho : (ins p ic == pass_omit) = true
+        · simp only [ho, if_true] at h hp ⊢
+          exact ih _ _ _ _ _ _ _ _ hp h
+        · simp [ho] at hp
+
+/-- **backAction_replaces_brackets**: the same for the backward interpreter -/
+theorem backAction_replaces_brackets (p input : List Nat) (m : Match) (ic max : Nat) (a a' : Acc) (np : Int)
+    (vars vars' : List Nat) (hp : plainAction p (p.length + 1) ic = true)
+    (h : backAction p input m ic max a vars = .ok a' np vars') :
+    a'.out = a.out ++ slice input m.startMatch m.startReplace ++ emitted p (p.length + 1) ic ∧ np = m.endReplace := by
+  unfold backAction at h
+  cases hcp : backCopy input m.startMatch m.startReplace max a with
+  | none => simp [hcp] at h
+  | some a1 =>
+    simp only [hcp] at h
+    obtain ⟨h1, h2⟩ := backActLoop_plain p input m max _ _ _ _ _ _ _ _ _ _ hp h
+    refine ⟨?_, h2⟩
+    rw [h1]
+    unfold backCopy at hcp
+    split at hcp
+    · split at hcp
+      · cases hcp
+      · cases hcp; rfl
+    · cases hcp
+      rename_i hlt
+      have : slice input m.startMatch m.startReplace = [] := by unfold slice; simp; omega
+      simp [this]
+
 /-! ### the hypotheses are satisfiable: `noback pass2 @1[@2] @3` on the cells 1 2 1 -/
 
 def exProg : List Nat := [pass_dots, 1, 1, pass_startReplace, pass_dots, 1, 2, pass_endReplace, pass_endTest, pass_dots, 1, 3]
